@@ -376,7 +376,7 @@ CHECK_DEADLOCK FALSE
     return out
 
 
-REPLAY_CAP = 40000
+REPLAY_CAP = 20000
 
 TIERS = {
     # (NChild, SrcLen, Susp, UseLock)
